@@ -304,6 +304,22 @@ def _restore_state(snap):
             obj[...] = saved
 
 
+def _opt(v):
+    return 'None' if v is None else f'(Some {int(v)})'
+
+
+def cipher_literal(dec, form, key_many, keys, block_many, blocks, stops, shapes, rows):
+    """Coq record cipher_case: keys / blocks are packed rows, stops (at_des, at_round, after_step) with None = default."""
+    ks = [limbs(unpack(k, form)) for k in keys]
+    return ('{| dc_dec := %s; dc_key_many := %s; dc_keys := %s; dc_block_many := %s; dc_blocks := %s; dc_stops := %s%%nat; '
+            'dc_obs_shape := %s%%nat; dc_obs := %s |}' % (
+                C.coq_bool(dec), C.coq_bool(key_many), C.coq_list(ks, lambda ls: C.coq_list(ls, C.coq_n)),
+                C.coq_bool(block_many), C.coq_list(blocks, C.coq_n),
+                C.coq_list(stops, lambda t: '(%s, %s, %s)' % (_opt(t[0]), _opt(t[1]), _opt(t[2]))),
+                C.coq_list(shapes, lambda sh: C.coq_list(sh, str)),
+                C.coq_list(rows, lambda r: C.coq_list(r, C.coq_n))))
+
+
 class CipherKind(Kind):
     name = 'des_cipher'
     header = HDR
@@ -314,12 +330,14 @@ class CipherKind(Kind):
     rule = ('scared.des.encrypt / decrypt as a sequence of calls on the same arrays: every at_des x at_round x after_step x mode x key '
             'form (8/16/24 key bytes, 128/256/384 round-key words) at least once per run, the four broadcasting shapes in rotation, '
             'defaults (None) of at_des / at_round / after_step, template-isolation sequences (a stop at steps 6/7/8 of round 15 followed '
-            'by a complete operation), weak and random keys; oracle: caller\'s arrays unmodified, uint8, documented shape; '
+            'by a complete operation), the stop points before the first key addition under every shape incl. single-row 2-D arrays, weak and '
+            'random keys; the SHAPE of every result is compared with the model (shape_ok) like its values; oracle: caller\'s arrays and the '
+            'module state unmodified, uint8; '
             'non-trivial = always (every case holds at least one stop point)')
 
     def gen(self, rng, tier):
         # boundary block: defaults and template isolation, every key form and mode, every shape
-        for form in FORMS:
+        for fi, form in enumerate(FORMS):
             last = n_des(form) - 1
             for dec in (False, True):
                 stops = [(None, None, None), (last, 15, 6), (None, None, None), (last, 15, 7), (None, None, 9), (last, 15, 8),
@@ -328,23 +346,29 @@ class CipherKind(Kind):
                 for shape in range(4):
                     yield make_case(rng, form, dec, shape, stops if shape in (0, 3) else stops[:5], 1 if shape == 0 else 2,
                                     style='schedule' if (form > 24 and shape == 0) else 'random')
-                yield make_case(rng, form, dec, 3, [(None, None, None), (0, 0, 3)], 1)          # (1, k) keys against (1, 8) blocks
-        # every stop point of every key form and mode, eight consecutive stop points per case
-        passes = 1 if tier == 'quick' else 3
+                # the shape of the result at the stop points that come BEFORE the first key addition (nothing has been broadcast
+                # against the keys yet) and right after it, first and last pass, complete operation: the four forms with n = 2 or 3
+                # rows, and the 2-D forms with a single row (the one place where the code's squeeze changes the shape)
+                early = [(0, 0, 0), (0, 0, 1), (0, 0, 2), (0, 0, 5), (0, 1, 0), (0, 1, 1), (last, 0, 0), (last, 0, 1), (None, None, None)]
+                for shape in range(4):
+                    yield make_case(rng, form, dec, shape, early, 1 if shape == 0 else 2 + (fi + int(dec)) % 2)
+                for shape in (1, 2, 3):
+                    yield make_case(rng, form, dec, shape, early[:4] + early[-1:], 1)
+        # every stop point of every key form and mode, eight consecutive stop points per case; the shape rotates with the case and
+        # is shifted from one pass to the next: the four passes of the thorough tier put every stop point under every shape
+        passes = 1 if tier == 'quick' else 4
         for rep in range(passes):
-            idx = 0
-            for form in FORMS:
+            for fi, form in enumerate(FORMS):
                 for dec in (False, True):
                     allstops = [(d, r, s) for d in range(n_des(form)) for r in range(16) for s in range(10)]
-                    for i in range(0, len(allstops), 8):
-                        shape = (idx + rep) % 4
-                        idx += 1
+                    for ci, i in enumerate(range(0, len(allstops), 8)):
+                        shape = (ci + fi + 2 * int(dec) + rep) % 4
                         if tier == 'quick':
                             nrows = 1 if shape == 0 else 2
                             style = 'random'
                         else:
                             nrows = 1 if shape == 0 else 3
-                            style = ('random', 'weak', 'schedule' if form > 24 else 'random')[rep]
+                            style = ('random', 'weak', 'schedule' if form > 24 else 'random', 'random')[rep]
                         yield make_case(rng, form, dec, shape, allstops[i:i + 8], nrows, style)
 
     def run(self, case):
@@ -357,16 +381,15 @@ class CipherKind(Kind):
         barr = blocks if shape in (1, 3) else blocks[0]
         karr, barr = np.ascontiguousarray(karr), np.ascontiguousarray(barr)
         k0, b0 = karr.copy(), barr.copy()
-        n = max(len(case['keys']), len(case['blocks']))
         fn = B.decrypt if case['dec'] else B.encrypt
-        rows, notes = [], []
+        rows, notes, shapes = [], [], []
         snap = _snapshot_state(B)
         try:
-            return self._calls(case, fn, karr, barr, k0, b0, n, shape, rows, notes, snap, B)
+            return self._calls(case, fn, karr, barr, k0, b0, shapes, rows, notes, snap)
         finally:
             _restore_state(snap)        # the next case starts from the module as imported, whatever this one did to it
 
-    def _calls(self, case, fn, karr, barr, k0, b0, n, shape, rows, notes, snap, B):
+    def _calls(self, case, fn, karr, barr, k0, b0, shapes, rows, notes, snap):
         for (d, r, s) in case['stops']:
             kw = {}
             if d is not None:
@@ -382,26 +405,16 @@ class CipherKind(Kind):
             for what in _changed_state(snap):
                 if not any(what in x for x in notes):
                     notes.append(f'stop {(d, r, s)}: the call modified {what} (state shared by all later calls)')
-            if out.dtype != np.uint8 or out.size != 8 * n:
-                return {'raised': 'BadResult', 'msg': f'stop {(d, r, s)}: dtype {out.dtype} shape {out.shape}'}
-            ok_shapes = [(8,)] if (shape == 0 or n == 1) else [(n, 8)]
-            if shape != 0 and n == 1:
-                ok_shapes.append((1, 8))
-            if tuple(out.shape) not in ok_shapes:
-                notes.append(f'stop {(d, r, s)}: result shape {out.shape}, expected {ok_shapes[-1]}')
+            if not isinstance(out, np.ndarray) or out.dtype != np.uint8 or out.size % 8 != 0:
+                return {'raised': 'BadResult', 'msg': f'stop {(d, r, s)}: {type(out).__name__} dtype {getattr(out, "dtype", None)} '
+                                                      f'shape {getattr(out, "shape", None)}'}
+            shapes.append([int(v) for v in out.shape])        # compared with the model inside Coq (shape_ok), like the values
             rows.append([pack(x) for x in rows2d(out, 8).tolist()])
-        return {'rows': rows, 'notes': notes}
-
-    @staticmethod
-    def _opt(v):
-        return 'None' if v is None else f'(Some {int(v)})'
+        return {'rows': rows, 'shapes': shapes, 'notes': notes}
 
     def coq(self, case, obs):
-        stops = C.coq_list(case['stops'], lambda t: '(%s, %s, %s)' % (self._opt(t[0]), self._opt(t[1]), self._opt(t[2])))
-        keys = [limbs(unpack(k, case['form'])) for k in case['keys']]
-        return ('{| dc_dec := %s; dc_keys := %s; dc_blocks := %s; dc_stops := %s%%nat; dc_obs := %s |}' % (
-            C.coq_bool(case['dec']), C.coq_list(keys, lambda ls: C.coq_list(ls, C.coq_n)), C.coq_list(case['blocks'], C.coq_n),
-            stops, C.coq_list(obs.get('rows', []), lambda r: C.coq_list(r, C.coq_n))))
+        return cipher_literal(case['dec'], case['form'], case['shape'] in (2, 3), case['keys'], case['shape'] in (1, 3), case['blocks'],
+                              case['stops'], obs.get('shapes', []), obs.get('rows', []))
 
     def oracle(self, case, obs):
         if 'raised' in obs:
